@@ -6,14 +6,17 @@ From CV Require Import Model.Tnet Model.Logix.
 Import ListNotations.
 Open Scope Z_scope.
 
-(* a link is a number or an IPv4 address (dotted quad) *)
-Inductive link := LNum (n : Z) | LIp (a b c d : Z).
+(* a link is a number, an IPv4 address (dotted quad), or - on the wire only - some other address string (LText t, t the
+   base-256 number of the string's bytes behind a leading 1, so distinct strings are distinct numbers).  An address string
+   that spells a number ("0", "00") is LText, NOT LNum: the port segment carries the kind of its link. *)
+Inductive link := LNum (n : Z) | LIp (a b c d : Z) | LText (t : Z).
 Definition seg := (Z * link)%type.            (* {"port": p, "link": l} *)
 
 Definition link_eqb (x y : link) : bool :=
   match x, y with
   | LNum a, LNum b => a =? b
   | LIp a b c d, LIp a' b' c' d' => (a =? a') && (b =? b') && (c =? c') && (d =? d')
+  | LText t, LText t' => t =? t'
   | _, _ => false
   end.
 
@@ -54,6 +57,7 @@ Definition print_link (l : link) : list Z :=
   match l with
   | LNum n => print_int n
   | LIp a b c d => dec a ++ c_dot :: dec b ++ c_dot :: dec c ++ c_dot :: dec d
+  | LText _ => []                 (* not part of the textual route-path syntax (wf_link excludes it) *)
   end.
 
 Definition print_seg (s : seg) : list Z := dec (fst s) ++ c_slash :: print_link (snd s).
